@@ -39,9 +39,9 @@ Val32(n)   == n[1] * 65536 + n[2]
 Near(n) ==
   IF Small(n)
   THEN LET x == Val32(n) IN
-       <<n, n, n, N(x + 1), N(IF x > 0 THEN x - 1 ELSE 0), N(10 * x), N(10 * x + 3),
+       <<n, n, n, n, n, n, N(x + 1), N(IF x > 0 THEN x - 1 ELSE 0), N(10 * x), N(10 * x + 3),
          N(x + 1000), N(x + 60000), N(x \div 10)>>
-  ELSE <<n, n, <<n[1], IF n[2] > 0 THEN n[2] - 1 ELSE 0>>, N(n[1])>>
+  ELSE <<n, n, n, <<n[1], IF n[2] > 0 THEN n[2] - 1 ELSE 0>>, N(n[1])>>
 
 FitSeq(q, bits) == LET r == SelectSeq(q, LAMBDA n : IF bits = 16 THEN Fits16(n) ELSE Fits32(n))
                    IN IF r = <<>> THEN <<N(0)>> ELSE r
@@ -95,7 +95,7 @@ NearTerm(t) ==
 (* NEAR-MISS grammar.  A part is [k, q, n, canon, s]:
      k = "num"   one decimal number n[1]; q = "" canonical | "lead0" | "space" spelling
          "set"   parenthesised alternation of the numbers n (canon = every token canonical)
-         "anyd"  a digit run standing for every number  (\d+ [0-9]+ \d* [0-9]*)
+         "anyd"  a digit run standing for every number  - \d+ , [0-9]+ , \d* , [0-9]* -
          "any3"  a local-part wildcard  (.*  \d+  [0-9]+)
          "mcw"   a local part with a further colon that ENDS in such a wildcard
          "x"     anything else (text only)
@@ -225,6 +225,6 @@ MakeValue(kind, gen, pats, r) ==     \* r: 8 random integers
 
 MakeRoute(nvals, r) ==        \* r: 4 random integers; a route carries 0..3 of the values
   LET c == r[1] % 20
-      k == IF c < 2 THEN 0 ELSE IF c < 10 THEN 1 ELSE IF c < 17 THEN 2 ELSE 3
+      k == IF c < 1 THEN 0 ELSE IF c < 9 THEN 1 ELSE IF c < 16 THEN 2 ELSE 3
   IN [i \in 1..k |-> (r[i + 1] % nvals) + 1]
 =============================================================================
